@@ -112,6 +112,7 @@ func init() {
 				c["tm"] = "CertTrace"
 				res = append(res, c)
 			}
+			res = append(res, scanCandidates(env, "cnf", env.Pick(10000, 150000), false, scanCNF(true))...)
 			return res
 		},
 		Cover: func(t core.Case, cov map[string]int) bool {
